@@ -86,7 +86,7 @@ def generate(rng, tier, seed):
             k = rng.choice([2, 2, 3])
             scripts = scripts_for(rng, k, 3)
             total = sum(len(s) for s in scripts)
-            take = rng.choice([None, None, 1, 2, max(1, total - 1)])
+            take = rng.choice([None, None, 0, 1, 2, max(1, total - 1)])
             base = seed * 1000 + rng.randrange(1000)
             cases.append(hot_case(opn, scripts, take, ["random", base, 60 if thorough else 25]))
             cases.append(hot_case(opn, scripts, take, ["pct", 3, base, 30 if thorough else 10]))
